@@ -249,7 +249,7 @@ def other_data(chk):
     shutil.rmtree(scratch, ignore_errors=True)
     os.makedirs(scratch)
     try:
-        files = subprocess.run(["git", "-C", vlib.REPO, "ls-files", "-z"], stdout=subprocess.PIPE, check=True).stdout.split(b"\0")
+        files = subprocess.run(["git", "-C", vlib.REPO, "ls-files", "-z", "-c", "-o", "--exclude-standard"], stdout=subprocess.PIPE, check=True).stdout.split(b"\0")
         for f in files:
             f = f.decode()
             if not f or not os.path.isfile(os.path.join(vlib.REPO, f)):
